@@ -304,6 +304,7 @@ func c19(x *runCtx) {
 	}
 	runtime.GOMAXPROCS(old)
 	c19Pipeline(x, r)
+	c19PipeModel(x, r)
 }
 
 func c19Concurrent(x *runCtx, r *rand.Rand, backend string, n, procs int, delays bool) {
